@@ -90,7 +90,9 @@ Record call := mkCall {
   c_h0_diag_zero : nat -> bool;
   c_second_quant : bool;             (* H_0 contains second-quantised operators *)
   c_pair_shares : nat -> nat -> bool;     (* blocks i and j share an eigenvalue (isclose / ==) *)
-  c_term_herm : list nat -> tri      (* sympy expression: is_hermitian of the Taylor coefficient *)
+  c_term_herm : list nat -> tri;     (* sympy expression: is_hermitian of the Taylor coefficient *)
+  c_invalid_operator : bool;         (* some non-zero diagonal H_0 block has neither __matmul__ nor __mul__ *)
+  c_ragged : list nat -> bool        (* nested block lists: the grid of that order is not N x N *)
 }.
 
 (* ---------------- derived quantities ---------------- *)
@@ -204,11 +206,16 @@ Definition checks (c : call) : list (bool * exn) :=
     (negb (c_nblocks c =? 1) && is_array (c_fd c), ValueError);
     (* single block: the default (0,) would be substituted, not supported with a custom solver *)
     ((c_nblocks c =? 1) && fd_len0 (c_fd c) && custom c, NotImplementedError);
+    (* _unpack_blocks: "operator must have an NxN block structure" when the zeroth-order grid is
+       ragged (raised while the loops below read the blocks) *)
+    (c_preblocked c && c_ragged c (zero_order c), ValueError);
     (* block-diagonality of H_0 (blocks sympy cannot decide only warn) *)
     (existsb (fun p => scanned c (fst p) (snd p) && is_nonzero (c_h0_off c (fst p) (snd p)))
              (all_pairs (c_nblocks c)), ValueError);
     (* "The diagonal of the unperturbed Hamiltonian may not be zero" *)
     (forallb (c_h0_diag_zero c) (seq 0 (c_nblocks c)), ValueError);
+    (* "The unperturbed Hamiltonian is not a valid operator" *)
+    (c_invalid_operator c, ValueError);
     (* implicit block listed in fully_diagonalize *)
     (imp && existsb (Nat.eqb (c_nblocks c - 1)) (fd_keys (fd_eff c)), ValueError);
     (* legacy one-argument solver *)
@@ -264,6 +271,8 @@ Definition on_first_use (c : call) (u : use) : verdict :=
     else Accept
   | UseTerm n =>
     if fmt_is c FSympyExpr && c_hermitian c && tri_is_no (c_term_herm c n)
+    then Reject ValueError AtFirstUse
+    else if c_preblocked c && c_ragged c n     (* _unpack_blocks, first evaluation of that order *)
     then Reject ValueError AtFirstUse
     else Accept
   end.
